@@ -153,6 +153,9 @@ def space_formula_source(f):
             parts.append("'refs': {%s}" % ", ".join(
                 "%r: %s" % (n, render(e)) for n, e in ret["refs"].items()))
         body = "{%s}" % ", ".join(parts)
+    if f.get("failtag"):
+        # a fault point inside the parameter formula (one tag per instance)
+        body = "(_fail(%r + str(%s)), %s)[1]" % (f["failtag"], f["params"][0][0], body)
     if f.get("form", "lambda") == "def":
         return "def _formula(%s):\n    return %s\n" % (ps, body)
     return "lambda %s: %s" % (ps, body)
